@@ -145,7 +145,12 @@ def quadratic_spline(
         c_ = c - inputs
         # Numerically stable form of (-b + sqrt(b^2 - 4ac)) / (2a), also valid for a == 0
         # (equal heights on both sides of a bin, e.g. all-zero parameters).
-        alpha = (-2 * c_) / (b + torch.sqrt(b.pow(2) - 4 * a * c_))
+        # The discriminant equals (bin width * height at the solution)^2 >= 0, but it is obtained by cancellation:
+        # near the top of a bin whose right height sits at the floor, rounding (in float32) leaves it a hair
+        # below zero, and the relative position a hair outside [0, 1], which used to give NaN.
+        discriminant = torch.clamp(b.pow(2) - 4 * a * c_, min=0)
+        alpha = (-2 * c_) / (b + torch.sqrt(discriminant))
+        alpha = torch.clamp(alpha, 0, 1)
         outputs = alpha * input_bin_widths + input_bin_locations
         outputs = torch.clamp(outputs, 0, 1)
         logabsdet = -torch.log(
